@@ -213,6 +213,10 @@ def gen_case(rng, cls=None, force=None):
         # Discretizer classes hard-code output_dtype='str', dropna=True; the other configurations
         # are reached by loading the edited JSON of the fitted object (a BaseDiscretizer)
         case["edit"] = {"output_dtype": params["output_dtype"], "dropna": params["dropna"]}
+    if "edit_op" in force or rng.random() < 0.15:
+        # manual edit before dumping (update_discretizer); leaders are picked at run time
+        case["edit_op"] = force.get("edit_op") or {"feat": rng.randrange(8), "pick": rng.randrange(100),
+                                                   "mode": rng.choice(["group", "replace"])}
     m = 6
     probes = {k: {} for k in ("inside", "outside", "nan", "unseen")}
     for f in feats:
@@ -317,8 +321,15 @@ def fit_object(case):
         js["dropna"] = case["edit"]["dropna"]
         js["features_dropna"] = {f: case["edit"]["dropna"] for f in js["features"]}
         obj = load_discretizer(js)
-    for op in case.get("ops", []):           # manual edits before dumping
-        obj.update_discretizer(op[0], op[1], dec(op[2]), dec(op[3]))
+    op = case.get("edit_op")
+    if op:                                   # manual edit before dumping
+        names = list(obj.values_orders)
+        if names:
+            name = names[op["feat"] % len(names)]
+            leaders = [k for k in obj.values_orders[name] if k not in (obj.str_nan, obj.str_default)]
+            if len(leaders) >= 2:
+                i = op["pick"] % (len(leaders) - 1)
+                obj.update_discretizer(name, op["mode"], leaders[i], leaders[i + 1])
     return obj
 
 
@@ -456,7 +467,7 @@ def observe(case, obj):
     out = {"carver": carver, "klass": type(obj).__name__, "names": names, "serialisable": True,
            "text_names": [], "load": "not-run", "reload_names": [], "text2_names": [],
            "history1": False, "history2": False, "meta_diff": [], "behaviour_diff": [],
-           "vo_text_same": True, "content_in_list_order": True}
+           "vo_text_same": True, "vo_json_same": True, "content_in_list_order": True}
     feats = []
     for n in names:
         g = obj.values_orders[n]
@@ -512,6 +523,10 @@ def observe(case, obj):
     out["history2"] = "_history" in j2
     out["text2_names"] = split(j2.get("values_orders", "null"), "text2")
     out["vo_text_same"] = j1.get("values_orders") == j2.get("values_orders")
+    try:        # same JSON value (object key order ignored)?
+        out["vo_json_same"] = json.loads(j1["values_orders"]) == json.loads(j2["values_orders"])
+    except Exception:  # noqa: BLE001
+        out["vo_json_same"] = False
     for k in sorted(set(j1) | set(j2)):
         if k in ("values_orders", "_history"):
             continue
@@ -528,6 +543,8 @@ def observe(case, obj):
     d = attrs_differ(obj, r)
     if d:
         out["behaviour_diff"].append(d)
+    if carver and getattr(r, "_history", None) != j1.get("_history"):
+        out["behaviour_diff"].append("the _history attribute of the reloaded carver is not the saved history")
     if case["cls"] != "Base":
         frames = [("train", None)] + [(k, case["probes"][k]) for k in sorted(case.get("probes", {}))]
         kinds = {}
@@ -660,7 +677,11 @@ def problems_of(case, out):
                        f"{[(dec(k), decs(x)) for k, x in o['content']]!r} -> "
                        f"{[(dec(k), decs(x)) for k, x in r['content']]!r}"))
     if not out["vo_text_same"]:
-        pr.append(("second_dump_values_orders_differ", ""))
+        if out.get("vo_json_same"):
+            pr.append(("second_dump_values_orders_key_order",
+                       "the values_orders text of the reloaded object lists the content keys in another order"))
+        else:
+            pr.append(("second_dump_values_orders_differ", ""))
     if out["meta_diff"]:
         pr.append(("second_dump_entries_differ", ",".join(out["meta_diff"])))
     if out["history1"] != out["history2"]:
@@ -670,15 +691,15 @@ def problems_of(case, out):
     return pr
 
 
-CANON_O6 = None
-
 
 def canonical_o6_case():
     """smallest carver case: one quantitative feature, 40 rows"""
     import random
 
     rng = random.Random(6)
-    return gen_case(rng, "BinaryCarver", {"n": 40, "nfeat": 1, "kind": "quant", "qflavour": "halves"})
+    c = gen_case(rng, "BinaryCarver", {"n": 40, "nfeat": 1, "kind": "quant", "qflavour": "halves"})
+    c.pop("edit_op", None)
+    return c
 
 
 def canonical_sentinel_case():
@@ -686,13 +707,27 @@ def canonical_sentinel_case():
     import random
 
     rng = random.Random(66)
-    return gen_case(rng, "QualitativeDiscretizer", {"n": 40, "nfeat": 1, "kind": "cat", "cflavour": "sentinel"})
+    c = gen_case(rng, "QualitativeDiscretizer", {"n": 40, "nfeat": 1, "kind": "cat", "cflavour": "sentinel"})
+    c.pop("edit", None)
+    c.pop("edit_op", None)
+    return c
+
+
+def canonical_edit_case():
+    """smallest object edited with update_discretizer(mode='replace') before dumping"""
+    import random
+
+    rng = random.Random(67)
+    c = gen_case(rng, "QuantitativeDiscretizer", {"n": 60, "nfeat": 1, "kind": "quant", "qflavour": "uniform",
+                                                  "edit_op": {"feat": 0, "pick": 0, "mode": "replace"}})
+    c.pop("edit", None)
+    return c
 
 
 class C06(Prop):
     pid = "C06"
     theorems = ["C06_roundtrip_feature", "C06_roundtrip_state", "C06_roundtrip_behaviour",
-                "C06_normalise", "C06_roundtrip_idempotent", "C06_idempotent_carver_refuted",
+                "C06_normalise", "C06_roundtrip_idempotent", "C06_serialize_normalise",
                 "C06_loads_dumps_plain", "C06_witness_key_collision", "C06_witness_sentinel_category",
                 "C06_witness_neg_inf", "C06_witness_str_differs_from_key",
                 "C06_witness_unordered_content", "C06_checker_sound"]
@@ -718,7 +753,7 @@ class C06(Prop):
         import random
 
         inf = math.inf
-        cs = [canonical_o6_case()]
+        cs = [canonical_o6_case(), canonical_sentinel_case(), canonical_edit_case()]
         rng = random.Random(606)
         cs.append(gen_case(rng, "QualitativeDiscretizer", {"n": 80, "nfeat": 1, "kind": "cat",
                                                            "cflavour": "sentinel"}))
@@ -783,21 +818,28 @@ class C06(Prop):
             return None
         kinds = ",".join(sorted(f"{f['kind']}:{f['flavour']}" for f in case["features"]))
         p = case["params"]
-        cfg = f"{p.get('output_dtype')}/{p.get('dropna')}/{'edit' if case.get('edit') else '-'}"
+        cfg = (f"{p.get('output_dtype')}/{p.get('dropna')}/{'edit' if case.get('edit') else '-'}/"
+               f"{case.get('edit_op', {}).get('mode', '-')}")
         pr = ",".join(sorted({k for k, _ in problems_of(case, out)})) or "holds"
         tk = ",".join(f"{k}={v}" for k, v in sorted(out.get("transform_kinds", {}).items()))
         return f"{case['cls']}|{kinds}|{cfg}|{pr}|{tk}|{out.get('content_in_list_order')}"
 
     def finding_signatures(self, case, out, msg):
+        """one signature per root cause present in the case, provided these causes explain EVERY
+        failing clause (otherwise the failure is something else: no signature)"""
         kinds = {k for k, _ in problems_of(case, out)} if isinstance(out, dict) and "feats" in out else set()
-        sigs = []
-        if kinds == {"history_dropped"}:
-            sigs.append("reloaded_carver_to_json_drops_history")
-        if has_sentinel(case) and kinds and kinds <= {"history_dropped", "values_orders_differ", "load_raised",
-                                                       "behaviour_differs", "second_dump_values_orders_differ"}:
-            if kinds != {"history_dropped"}:
-                sigs.append("category_named_numpy_inf")
-        return sigs
+        causes = []
+        if "history_dropped" in kinds:
+            causes.append(("reloaded_carver_to_json_drops_history", {"history_dropped"}))
+        if case.get("edit_op", {}).get("mode") == "replace" and "second_dump_values_orders_key_order" in kinds:
+            causes.append(("edited_leader_content_key_order", {"second_dump_values_orders_key_order"}))
+        sent = {"values_orders_differ", "load_raised", "behaviour_differs", "second_dump_values_orders_differ"}
+        if has_sentinel(case) and kinds & sent:
+            causes.append(("category_named_numpy_inf", sent))
+        explained = set().union(*[k for _, k in causes]) if causes else set()
+        if not kinds or not kinds <= explained:
+            return []
+        return [name for name, _ in causes]
 
     def shrink(self, case, out, msg):
         kinds = {k for k, _ in problems_of(case, out)}
@@ -810,16 +852,15 @@ class C06(Prop):
                 return o
             return None
 
-        if kinds == {"history_dropped"}:
-            c = canonical_o6_case()
-            o = fails_same(c)
-            if o is not None:
-                return c, o, self.oracle(c, o)[1]
-        if has_sentinel(case) and "category_named_numpy_inf" in self.finding_signatures(case, out, msg):
-            c = canonical_sentinel_case()
-            o = self.run_impl(c)
-            if "feats" in o and "category_named_numpy_inf" in self.finding_signatures(c, o, ""):
-                return c, o, self.oracle(c, o)[1]
+        sigs = self.finding_signatures(case, out, msg)
+        for sig, canon in (("category_named_numpy_inf", canonical_sentinel_case),
+                           ("edited_leader_content_key_order", canonical_edit_case),
+                           ("reloaded_carver_to_json_drops_history", canonical_o6_case)):
+            if sig in sigs:     # a known root cause: its smallest instance
+                c = canon()
+                o = self.run_impl(c)
+                if "feats" in o and sig in self.finding_signatures(c, o, ""):
+                    return c, o, self.oracle(c, o)[1]
         best = (case, out, msg)
         cur = case
         # fewer features (the first one drives the target: kept)
